@@ -113,9 +113,18 @@ Definition wez_erase_ls (w h : Z) : list (list tok) := repeat [TEch w; TCuf w] (
 Definition wez_pre (W H : Z) (ha va : nat) (w h : Z) : list tok :=
   old_frame (Z.max H h) (format_render W H ha va w h (joinlf (wez_erase_ls w h))).
 
-(** kitty's [_clear_frame] *)
+(** [KittyImage._display_animated] ([kitty.py:374-379]): the frames of an animation are
+    rendered with [z_index = -(1 << 31)] whatever the caller asked for (and, on kitty >
+    0.25.0, with [blend = False]); [_clear_frame] ([kitty.py:357-372], kitty <= 0.25.0)
+    deletes exactly that z-index *)
+Definition kitty_anim_z : Z := - 2147483648.
+
 Definition kitty_clear (old_kitty : bool) : list tok :=
-  if old_kitty then [TKittyDel (DelZ (- 2147483648))] else [].
+  if old_kitty then [TKittyDel (DelZ kitty_anim_z)] else [].
+
+(** every transmission of an animation frame is on the animation z-index *)
+Definition kitty_anim_frame_ok (F : list tok) : bool :=
+  forallb (fun x => match x with TKittyFirst k _ _ => kk_z k =? kitty_anim_z | _ => true end) F.
 
 (** [BaseImage.draw]'s and [_renderer]'s validation.  [rawW rawH]: the [pad_width] /
     [pad_height] arguments as given; [dynamic]: the image's size is not set (it is
